@@ -23,3 +23,24 @@ Proof.
     (destruct (f_number f =? -2); cbn; [destruct (g_max_alleles p - 1 =? s_max_number (f_sum f)); reflexivity|]);
     (destruct (f_number f =? -3); cbn; [destruct (g_gsize p =? s_max_number (f_sum f)); reflexivity|]); reflexivity.
 Qed.
+
+(* ---- VcfZarrSchema.generate: the whole list of array specifications ------------------------------------ *)
+Lemma mapM_ext {X Y} (f g : X -> res Y) : (forall x, f x = g x) -> forall l, mapM f l = mapM g l.
+Proof. intros H l. induction l as [|x l IH]; [reflexivity|]. cbn [mapM]. rewrite H, IH. reflexivity. Qed.
+
+Lemma translated_generate_lemma : forall p qual pos rlen infos formats gt,
+  gen_generate p qual pos rlen infos formats gt = generate p qual pos rlen infos formats gt.
+Proof.
+  intros p qual pos rlen infos formats gt. unfold gen_generate, generate. cbv zeta.
+  destruct (min_int_dtype 0 (g_num_contigs p)) as [cdt|e]; [|reflexivity]. cbn [bind].
+  rewrite !translated_from_field_lemma.
+  rewrite (mapM_ext _ _ (fun f => translated_from_field_lemma p f (field_name f)) infos).
+  rewrite (mapM_ext _ _ (fun f => translated_from_field_lemma p f (field_name f)) formats).
+  destruct (from_field p qual (AFixed 5)) as [sq|e]; [|reflexivity]. cbn [bind].
+  destruct (from_field p pos (AFixed 6)) as [sp|e]; [|reflexivity]. cbn [bind].
+  destruct (from_field p rlen (AFixed 7)) as [sl|e]; [|reflexivity]. cbn [bind].
+  destruct (mapM _ infos) as [si|e]; [|reflexivity]. cbn [bind].
+  destruct (mapM _ formats) as [sf|e]; [|reflexivity]. cbn [bind].
+  destruct gt as [g|]; [|reflexivity].
+  rewrite translated_smallest_dtype_lemma. destruct (smallest_dtype g) as [gdt|e]; reflexivity.
+Qed.
